@@ -1203,6 +1203,10 @@ class Interp:
                 self.assign(s, stmt.target, r if r is not None else UNK)
                 outs.append(Out("normal", s))
             return outs
+        if isinstance(stmt, ast.Expr) and isinstance(stmt.value, ast.YieldFrom):
+            loop = self._yield_from_loop(stmt)
+            if loop is not None:
+                return self.exec_stmt(loop, st)
         if isinstance(stmt, ast.Expr) and isinstance(stmt.value, (ast.Yield, ast.YieldFrom)):
             return self._yield(stmt, stmt.value, st)
         if isinstance(stmt, ast.Expr):
@@ -1246,6 +1250,9 @@ class Interp:
         if isinstance(stmt, ast.Try):
             return self.exec_try(stmt, st)
         if isinstance(stmt, ast.With):
+            tr = self._suppress_as_try(stmt)
+            if tr is not None:
+                return self.exec_try(tr, st)
             cm = self.contextmanager_target(stmt)
             if cm is not None:
                 return self.exec_with_cm(stmt, st, cm)
@@ -1282,6 +1289,45 @@ class Interp:
         if isinstance(stmt, (ast.FunctionDef, ast.ClassDef, ast.AsyncFunctionDef)):
             return [Out("normal", st)]
         raise AnalysisError(f"statement kind {type(stmt).__name__} not supported by the interpreter (line {stmt.lineno})")
+
+    def _yield_from_loop(self, stmt):
+        """`yield from (elt for t in it if c)` is `for t in it: if c: yield elt`; `yield from it` (statement form, result unused)
+        is `for x in it: yield x`.  Synthesised once per statement so that state keys stay stable."""
+        if hasattr(stmt, "_sa_loop"):
+            return stmt._sa_loop
+        v = stmt.value.value
+        loop = None
+        if isinstance(v, ast.GeneratorExp) and len(v.generators) == 1 and not v.generators[0].is_async:
+            g = v.generators[0]
+            body = [ast.Expr(ast.Yield(v.elt))]
+            for c in reversed(g.ifs):
+                body = [ast.If(c, body, [])]
+            loop = ast.For(g.target, g.iter, body, [], None)
+        elif isinstance(v, (ast.Name, ast.Attribute, ast.Subscript, ast.Tuple, ast.List)):
+            nm = f"_yf{stmt.lineno}"
+            loop = ast.For(ast.Name(nm, ast.Store()), v, [ast.Expr(ast.Yield(ast.Name(nm, ast.Load())))], [], None)
+        if loop is not None:
+            ast.copy_location(loop, stmt)
+            ast.fix_missing_locations(loop)
+        stmt._sa_loop = loop
+        return loop
+
+    def _suppress_as_try(self, stmt):
+        """`with contextlib.suppress(E1, ..): body` is `try: body` / `except (E1, ..): pass`."""
+        if hasattr(stmt, "_sa_try"):
+            return stmt._sa_try
+        tr = None
+        if len(stmt.items) == 1 and stmt.items[0].optional_vars is None:
+            e = stmt.items[0].context_expr
+            if isinstance(e, ast.Call) and not e.keywords and e.args and not any(isinstance(a, ast.Starred) for a in e.args):
+                q = self.m.resolve_name(self.module, e.func) if isinstance(e.func, (ast.Name, ast.Attribute)) else None
+                if q == "contextlib.suppress":
+                    typ = e.args[0] if len(e.args) == 1 else ast.Tuple(list(e.args), ast.Load())
+                    tr = ast.Try(stmt.body, [ast.ExceptHandler(typ, None, [ast.Pass()])], [], [])
+                    ast.copy_location(tr, stmt)
+                    ast.fix_missing_locations(tr)
+        stmt._sa_try = tr
+        return tr
 
     def _yield(self, stmt, ynode, st):
         if self.yield_body is not None:
